@@ -63,8 +63,8 @@ Definition thumb_of (ki : kimm) (d : dict) : res str :=
 
 (* ---------- static part: class tables, registries, singletons, and the registry
    instances the CALLER created and shares between calls (allow-list, flags) ---------- *)
-Record creg := { cr_allowed : option (list string); cr_strict : bool }.
-Definition creg0 : creg := {| cr_allowed := None; cr_strict := true |}.
+Record creg := { cr_allowed : option (list string); cr_strict : bool; cr_verify_all : bool }.
+Definition creg0 : creg := {| cr_allowed := None; cr_strict := true; cr_verify_all := true |}.
 (* the registry a call works with: its own (built from algorithms=) or a shared one (registry=) *)
 Inductive regref := ROwn (allowed : option (list string)) | RShared (r : nat).
 
